@@ -195,3 +195,22 @@ def store(route, value, fmt, rounding, overflow, callbacks=None):
         x[1] = value
         return x, 1
     raise ValueError(route)
+
+
+def build(f, cs, shape, by='raw', **kw):
+    """an object of format f holding the codes cs (list) in `shape` (tuple, or () for a scalar from cs[0]).
+    by='raw': codes written with raw=True (value type unset); by='value': built from the exact values - Python/NumPy ints
+    when n_frac <= 0 (the object then carries an integer value type), floats otherwise."""
+    if by == 'raw':
+        arr = np.array(cs, dtype=np.int64).reshape(shape) if shape != () else cs[0]
+        return Fxp(arr, f[0], f[1], f[2], raw=True, **kw)
+    if f[2] <= 0:
+        vals = [c << -f[2] for c in cs]
+        arr = np.array(vals, dtype=np.int64).reshape(shape) if shape != () else vals[0]
+    else:
+        vals = [math.ldexp(c, -f[2]) for c in cs]
+        arr = np.array(vals, dtype=np.float64).reshape(shape) if shape != () else vals[0]
+    x = Fxp(arr, f[0], f[1], f[2], **kw)
+    if codes(x) != [int(c) for c in cs] or flags(x) != (False, False, False):
+        raise AssertionError('build by value did not give the codes')
+    return x
